@@ -581,13 +581,21 @@ func addrWritten(addr ssa.Value, depth int) bool {
 					if u.Map == r {
 						return true
 					}
+				case *ssa.IndexAddr:
+					if u.X == r && addrWritten(u, depth+1) {
+						return true
+					}
 				case *ssa.Call:
 					if b, ok := u.Call.Value.(*ssa.Builtin); ok && b.Name() == "delete" && len(u.Call.Args) > 0 && u.Call.Args[0] == r {
 						return true
 					}
-				case *ssa.IndexAddr:
-					if u.X == r && addrWritten(u, depth+1) {
-						return true
+					// the loaded map / pointer / slice is handed to a function that modifies what it is given
+					if sc := u.Call.StaticCallee(); sc != nil && sc.Blocks != nil {
+						for i, a := range u.Call.Args {
+							if a == ssa.Value(r) && i < len(sc.Params) && depth < 3 && paramWritten(sc.Params[i], depth+1) {
+								return true
+							}
+						}
 					}
 				}
 			}
@@ -929,4 +937,44 @@ func (la *LockAnalysis) netEffect(fn *ssa.Function) (acq map[string]LockMode, re
 	}
 	la.netMemo[fn] = [2]interface{}{acq, rel}
 	return acq, rel
+}
+
+// paramWritten: the memory a parameter refers to (map entries, slice elements, pointee fields) is modified by its function,
+// directly or by handing it on to a static callee (bounded depth).
+func paramWritten(p *ssa.Parameter, depth int) bool {
+	if p.Referrers() == nil || depth > 3 {
+		return false
+	}
+	for _, r := range *p.Referrers() {
+		switch u := r.(type) {
+		case *ssa.MapUpdate:
+			if u.Map == ssa.Value(p) {
+				return true
+			}
+		case *ssa.Store:
+			if u.Addr == ssa.Value(p) {
+				return true
+			}
+		case *ssa.IndexAddr:
+			if u.X == ssa.Value(p) && addrWritten(u, depth+1) {
+				return true
+			}
+		case *ssa.FieldAddr:
+			if u.X == ssa.Value(p) && addrWritten(u, depth+1) {
+				return true
+			}
+		case *ssa.Call:
+			if b, ok := u.Call.Value.(*ssa.Builtin); ok && b.Name() == "delete" && len(u.Call.Args) > 0 && u.Call.Args[0] == ssa.Value(p) {
+				return true
+			}
+			if sc := u.Call.StaticCallee(); sc != nil && sc.Blocks != nil {
+				for i, a := range u.Call.Args {
+					if a == ssa.Value(p) && i < len(sc.Params) && paramWritten(sc.Params[i], depth+1) {
+						return true
+					}
+				}
+			}
+		}
+	}
+	return false
 }
